@@ -165,6 +165,27 @@ func (g *G) leaf(o tyOpts) *Ty {
 		if c := g.refCandidates(false); len(c) > 0 {
 			return StructRefT(c[g.R.IntN(len(c))])
 		}
+	case 20:
+		// instantiation of a local generic type, with a concrete type or with a type parameter of the struct
+		e := g.basic()
+		if len(o.tps) > 0 && g.chance(50) {
+			tp := o.tps[g.R.IntN(len(o.tps))]
+			e = TParamT(tp.Name, tp.Inst)
+		}
+		switch g.R.IntN(4) {
+		case 0:
+			return BagT(e)
+		case 1:
+			return PtrT(CellT(e))
+		case 2:
+			return VoidT(e)
+		}
+		return CellT(e)
+	case 21:
+		if g.chance(50) {
+			return AliasPT()
+		}
+		return AliasLevelT()
 	}
 	return g.basic()
 }
@@ -449,15 +470,34 @@ func (g *G) RandomStruct(arity int) *Struct {
 		return n
 	}
 	var fields []Field
-	// embedded fields first (as in AllKindTypes)
-	if g.chance(20) {
-		fields = append(fields, Field{Name: "Emb", Ty: &Ty{FK: "structemb", Src: "Emb", Conc: "Emb", Gen: "lwZero[Emb]()", Cmp: true, Faithful: true, JSONOK: true, TagRule: "plain"}, Embedded: true, EmptyEmb: true})
-	}
+	var embs []Field // C07 flavour: embedded fields of every kind, put at random positions below
 	napp := 0
-	if g.chance(15) && arity > 1 {
-		fields = append(fields, Field{Name: "EmbNE", Ty: &Ty{FK: "structemb", Src: "EmbNE", Conc: "EmbNE", Gen: "lwG[EmbNE](func(r *lwRand, nn bool) EmbNE { return EmbNE{Inner: r.n(1000), Other: lwStr[string]()(r, false)} })", Cmp: true, Faithful: true, JSONOK: true, TagRule: "plain"}, Embedded: true})
-		used["inner"], used["other"] = true, true
-		napp++
+	if g.JSON {
+		// C15 flavour (unchanged): embedded empty / non-empty struct first, as in AllKindTypes
+		if g.chance(20) {
+			fields = append(fields, embEmpty())
+		}
+		if g.chance(15) && arity > 1 {
+			fields = append(fields, embNE())
+			used["inner"], used["other"] = true, true
+			napp++
+		}
+	} else {
+		embs = g.randomEmbedded(usable, used)
+		kept := func() (n int) {
+			for _, e := range embs {
+				if e.Applicable() {
+					n++
+				}
+			}
+			return
+		}
+		// embedded fields that gombok keeps count towards the arity; now and then they are ALL the fields
+		allEmbedded := g.chance(20)
+		for len(embs) > 0 && (kept() > arity || (kept() == arity && !allEmbedded)) {
+			embs = embs[:len(embs)-1]
+		}
+		napp = kept()
 	}
 	pubPct := 12
 	if pubAnn {
@@ -467,7 +507,14 @@ func (g *G) RandomStruct(arity int) *Struct {
 	for ; napp < arity; napp++ {
 		pub := g.chance(pubPct)
 		f := Field{Name: nextName(napp, pub)}
-		if prev != nil && !pub && g.chance(12) && len(fields) > 0 && !fields[len(fields)-1].Embedded && fields[len(fields)-1].Tag == "" && !fields[len(fields)-1].Public() {
+		join := false
+		if g.JSON {
+			join = prev != nil && !pub && g.chance(12) && len(fields) > 0 && !fields[len(fields)-1].Embedded && fields[len(fields)-1].Tag == "" && !fields[len(fields)-1].Public()
+		} else {
+			// any mix of private and public names: `a, b T`, `F, G T`, `h, I T`
+			join = prev != nil && len(fields) > 0 && g.chance(14) && !fields[len(fields)-1].Embedded && fields[len(fields)-1].Tag == ""
+		}
+		if join {
 			// `a, b T`
 			f.Ty = prev
 			fields[len(fields)-1].JoinNext = true
@@ -505,6 +552,43 @@ func (g *G) RandomStruct(arity int) *Struct {
 			fields = append(fields, Field{Name: "_", Ty: Basic("int")})
 		}
 	}
+	insert := func(at int, f Field) {
+		fields = append(fields[:at], append([]Field{f}, fields[at:]...)...)
+	}
+	if !g.JSON {
+		if !pubAnn && g.chance(15) {
+			// `_x, _y int`: several skipped names on one line
+			t := g.pickTy(Basic("int"), Basic("string"))
+			at := g.R.IntN(len(fields) + 1)
+			insert(at, Field{Name: "_p1", Ty: t, JoinNext: true})
+			insert(at+1, Field{Name: "_p2", Ty: t})
+		}
+		if !pubAnn && g.chance(18) {
+			// blank fields in first / middle / last position
+			for k := 1 + g.R.IntN(2); k > 0; k-- {
+				t := g.pickTy(Basic("int"), Basic("string"), BlankStructT())
+				switch g.R.IntN(3) {
+				case 0:
+					insert(0, Field{Name: "_", Ty: t})
+				case 1:
+					insert(len(fields), Field{Name: "_", Ty: t})
+				default:
+					insert(g.R.IntN(len(fields)+1), Field{Name: "_", Ty: t})
+				}
+			}
+		}
+		// embedded fields in first / middle / last position
+		for _, e := range embs {
+			switch g.R.IntN(3) {
+			case 0:
+				insert(0, e)
+			case 1:
+				insert(len(fields), e)
+			default:
+				insert(g.R.IntN(len(fields)+1), e)
+			}
+		}
+	}
 	// a JoinNext chain must not be interrupted
 	for i := range fields {
 		if fields[i].JoinNext && (i+1 >= len(fields) || fields[i+1].Ty != fields[i].Ty || fields[i+1].Tag != "" || fields[i+1].Embedded) {
@@ -521,15 +605,20 @@ func (g *G) RandomStruct(arity int) *Struct {
 			}
 		}
 		if !ok {
+			done := false
 			for i := range s.Fields {
-				if s.Fields[i].Applicable() {
+				if s.Fields[i].Applicable() && !s.Fields[i].Embedded {
 					s.Fields[i].Ty = Basic("string")
 					s.Fields[i].JoinNext = false
 					if i > 0 {
 						s.Fields[i-1].JoinNext = false
 					}
+					done = true
 					break
 				}
+			}
+			if !done {
+				s.Fields = append(s.Fields, Field{Name: "reqArg", Ty: Basic("string")})
 			}
 		}
 	}
